@@ -13,6 +13,7 @@ affects `p` only — rests on the correspondence (whole-tree + outside-sentinel
 snapshots with metadata, and the system-call monitor), not on a proof.
 -/
 import ReuseVerif.Lemmas.EffectsCmd
+import ReuseVerif.Model.AnnotateE2E
 
 namespace C15
 open Model.Eff Spec.Eff
@@ -139,6 +140,32 @@ theorem C15_history (env : Env) (w : World) (cs : List Cmd) (x : Path) :
     simp only [execAll]
     rw [ih _ hrest]
     exact C15_frame env w c fs x hwf hx
+
+/-- **The frame for the composed end-to-end model of `reuse annotate`** (`Model/AnnotateE2E.lean`:
+    the command-level state machine run with the text-level header builder, the generated style
+    tables and — on a concrete tree — the covered-files walk of C03 as `below`).  Whatever the
+    builder refuses or writes, whatever click rejects: a path that is neither a path of the
+    invocation nor the `.license` sibling of one is left exactly as it was. -/
+theorem C15_e2e_annotate_frame (w : Model.AE.World) (ww : World) (o : Model.AE.Opts) (fs : Fs) (x : Path)
+    (hwf : ∀ p ∈ expand (Model.AE.envOf w o fs) (Model.AE.argsOf o) fs, WfPath p)
+    (hx : x ∉ allowed (Model.AE.envOf w o fs) ww (.annotate (Model.AE.argsOf o)) fs) :
+    (Model.AE.annotateE2E w o fs).1 x = fs x := by
+  unfold Model.AE.annotateE2E
+  split
+  · rfl
+  · exact annotate_frame _ _ fs x hwf hx
+
+/-- On a concrete tree the paths `--recursive` adds are covered files of the walk (`Model.iterFiles`,
+    verified in depth under C03): ignored and excluded files are reached only when named themselves. -/
+theorem C15_e2e_recursive_covered (w : Model.AE.World) (wc : Model.WalkCfg) (o : Model.AE.Opts)
+    (tree : Model.AE.Tree) (d p : Path)
+    (hp : p ∈ (Model.AE.envOf { w with below := Model.AE.belowOf (Model.AE.coveredOf wc tree) } o
+      (Model.AE.fsOf tree)).below d) :
+    p ∈ Model.AE.coveredOf wc tree := by
+  simp only [Model.AE.envOf, Model.AE.belowOf] at hp
+  split at hp
+  · exact hp
+  · exact (List.mem_filter.mp hp).1
 
 /-! ### non-vacuity -/
 
